@@ -59,10 +59,10 @@ func (d *disk) Names() []string {
 	sort.Strings(n)
 	return n
 }
-func (d *disk) NotFlushedSizeEst() int                         { return 0 }
-func (d *disk) Flush(id []byte) error                          { return nil }
+func (d *disk) NotFlushedSizeEst() int                           { return 0 }
+func (d *disk) Flush(id []byte) error                            { return nil }
 func (d *disk) Initialize(n []string, id []byte) ([]byte, error) { return id, nil }
-func (d *disk) Close() error                                   { return nil }
+func (d *disk) Close() error                                     { return nil }
 
 // ---- routing tables --------------------------------------------------------------------------
 
@@ -326,6 +326,41 @@ func checkTable(c *core.Ctx, t rtable, seqLen int) {
 				}
 			}
 		}
+		// (5) second pass (OpenDB records requests, so it must not run between the Verify checks above)
+		for ei := range t {
+			for _, ed := range edits(t, ei) {
+				p2, err, _ := newProducer(disks, ed.t, 0)
+				if err != nil {
+					continue
+				}
+				sc2 := sc
+				sc2.EditIdx, sc2.Edit = ei, ed.what
+				// re-opening the recorded requests on the producer with the edited table: a request that is now routed
+				// into (an overlap of) another recorded request's table in the same database must be refused, and
+				// whatever is opened must still see only its own probe
+				for i, o := range ok {
+					r := p2.RouteOf(o.req)
+					st, oerr := p2.OpenDB(o.req)
+					c.Count("reopens_after_edit", 1)
+					if oerr != nil {
+						continue
+					}
+					for _, x := range ok {
+						if x.req != o.req && x.route.Type == r.Type && x.route.Name == r.Name && overlap(x.route.Table, r.Table) {
+							c.Violation("overlapping-table-not-refused-after-restart", sc2, "after a restart with an edited routing table (%s) OpenDB(%q) -> %s/%q table %q succeeded although the recorded request %q holds table %q in that database (old table %s, sequence %v)", ed.what, o.req, r.Type, r.Name, r.Table, x.req, x.route.Table, t, seq)
+							return
+						}
+					}
+					if r == o.route {
+						want := fmt.Sprintf("k%d=%s", i, o.req)
+						if got := keysOf(st); len(got) != 1 || got[0] != want {
+							c.Violation("reopen-other-data-after-edit", sc2, "re-opening %q (route unchanged by the edit %s) shows %q, expected %q (old table %s, sequence %v)", o.req, ed.what, got, want, t, seq)
+							return
+						}
+					}
+				}
+			}
+		}
 	}
 	rec = func(seq []string) {
 		if len(seq) > 0 {
@@ -381,6 +416,14 @@ func edits(t rtable, i int) []edited {
 	if i > 0 {
 		x = append(cp()[:i], cp()[i+1:]...)
 		out = append(out, edited{x, fmt.Sprintf("route %q removed", e.Req)})
+	}
+	// the request is sent into the table of another route of the same database
+	for j, o := range t {
+		if j != i && o.Route.Type == e.Route.Type && o.Route.Name == e.Route.Name && o.Route.Table != e.Route.Table {
+			x = cp()
+			x[i].Route.Table = o.Route.Table
+			out = append(out, edited{x, fmt.Sprintf("table of %q -> %q (the table of %q)", e.Req, o.Route.Table, o.Req)})
+		}
 	}
 	return out
 }
